@@ -246,8 +246,19 @@ func (o *orbitDBAccessController) Load(ctx context.Context, address string) erro
 			case evt = <-sub.Out():
 			}
 
-			switch evt.(type) {
-			case stores.EventReady, stores.EventWrite, stores.EventReplicated:
+			// the bus may be shared by every store of the orbitdb instance:
+			// only react to the events of the store backing this controller
+			var addr fmt.Stringer
+			switch e := evt.(type) {
+			case stores.EventReady:
+				addr = e.Address
+			case stores.EventWrite:
+				addr = e.Address
+			case stores.EventReplicated:
+				addr = e.Address
+			}
+
+			if addr != nil && addr.String() == store.Address().String() {
 				o.onUpdate(ctx)
 			}
 		}
